@@ -51,7 +51,7 @@ def run(ctx):
     ]
     # ---- the composed model: whole programs over the full primitive set (TexVM.tla) ------------
     texvm_consistency(ctx, "macro")
-    texvm_part(ctx, 6000 if ctx.quick else 120000, 202)
+    texvm_part(ctx, 6000 if ctx.quick else 80000, 202)
 
 
 def selftest(ctx):
